@@ -13,3 +13,11 @@ def nats(xs):
 
 def mem(i, kinds, host=None):
     return {"id": i, "host": i if host is None else host, "kinds": list(kinds)}
+
+
+def agent_obs_coq(o):
+    """an observation of the agent (Members() ids, join / leave event ids, HasKind over the universe) as an [obs]"""
+    if o.get("err") or o.get("ids") is None:
+        return "{| o_ids := [4999%nat]; o_joins := []; o_leaves := []; o_kinds := [] |}"
+    return "{| o_ids := %s; o_joins := %s; o_leaves := %s; o_kinds := %s |}" % (
+        nats(o["ids"]), nats(o["joins"]), nats(o["leaves"]), C.clist([C.cbool(b) for b in o["kinds"]]))
